@@ -97,7 +97,7 @@ pub fn cells() -> Vec<(&'static str, Vec<f64>)> {
     for p in [[0., 1.], [-2., 6.], [1e3, 1e3 + 1e-3], [5., 5.], [-1e3, 1e3]] {
         c.push(("Uniform", p.to_vec()));
     }
-    for p in [[0., 1.], [-2., 6.], [-1000., 1000.], [7., 7.], [0., 1099511627776.], [-5., -3.], [0., 6917529027641081856.], [-1e18, 1e18]] {
+    for p in [[0., 1.], [-2., 6.], [-1000., 1000.], [7., 7.], [0., 1099511627776.], [-5., -3.], [0., 6917529027641081856.], [-1e18, 1e18], [1., 1e9], [0., 2999999999.], [-7., 500000000.]] {
         c.push(("DiscreteUniform", p.to_vec()));
     }
     for l in [1e-3, 1., 4., 1e3] {
